@@ -200,6 +200,24 @@ def family(quick):
                       {"a": "flush", "g": "T", "obj": "U1", "ctxMs": CTX, "wait": True}, {"a": "state", "obj": "U1"}]
         steps += [{"a": "sleep", "ms": 60}, {"a": "closeUp", "g": "T", "obj": "U1", "ctxMs": CTX, "wait": True}]
         scs.append({"id": "C08/hookReenter/%d" % k, "kind": "iscp", "conn": dict(conn), "steps": steps + probes()})
+    # abandoned Flush: callers whose context is already done race the flush loop for their own request - some hand it over and leave
+    # before the result is ready.  The loop must not park on a result nobody collects: afterwards the same stream is written, flushed
+    # and closed under live contexts against a cooperative broker (probe phase) - seed C08-7
+    for k, (pol, n) in enumerate(((None, 40), ({"k": "interval", "ms": 20, "size": 1000}, 40)) if quick else
+                                 ((None, 40), ({"k": "interval", "ms": 20, "size": 1000}, 40), ({"k": "immediate"}, 80), (None, 150))):
+        ou = {"a": "openUp", "obj": "U1", "qos": "reliable", "closeTimeoutMs": 1000, "must": True}
+        if pol:
+            ou["policy"] = pol
+        steps = base + [ou, {"a": "ackMode", "mode": "auto"}, {"a": "write", "g": "T", "obj": "U1", "id": "A", "pts": [[1, 4]], "ctxMs": CTX, "wait": True}]
+        for j in range(n):
+            steps.append({"a": "flush", "g": "T", "obj": "U1", "ctxMs": -1, "boundMs": 50, "wait": True})
+            if j % 10 == 9:
+                steps.append({"a": "write", "g": "T", "obj": "U1", "id": "A", "pts": [[2 + j, 4]], "ctxMs": PROBE_CTX, "boundMs": PROBE_CTX, "wait": True})
+        pr = probes()
+        mine = [{"a": "write", "g": "PR", "obj": "U1", "id": "B", "pts": [[500, 4]], "ctxMs": PROBE_CTX, "wait": True},
+                {"a": "flush", "g": "PR", "obj": "U1", "ctxMs": PROBE_CTX, "wait": True},
+                {"a": "closeUp", "g": "PR", "obj": "U1", "ctxMs": PROBE_CTX, "wait": True}]
+        scs.append({"id": "C08/abandonedFlush/%d" % k, "kind": "iscp", "conn": dict(conn), "steps": steps + pr[:6] + mine + pr[6:]})
     return scs
 
 
